@@ -31,7 +31,7 @@ def make_device(kind, variant):
     kind does not set explicitly holds the SAME word (4) on both inverters, whatever their family - equal raw values meet
     different decoders."""
     eq = kind.endswith('=eq')
-    kind = kind.split('=')[0]
+    kind = kind.split('=')[0].replace('+ka', '').replace('+loops', '')
     if kind.startswith('ET'):
         d = ModbusDevice(0xF7, fill=(lambda a: 4) if eq else (lambda a: (a * 31 + 7) % 5000) if variant == 0 else (lambda a: (a * 17 + 1234) % 7000))
         et_device_info(d, serial=b'9010KETT000W0000' if kind == 'ET745' else b'9010KETU000W0000', rated=10000)
@@ -181,12 +181,15 @@ def run_pair(kinds, seqs, ctx, solo=None, transport='udp'):
             ats[self.i](when, sock, item)
     for i, d in enumerate(devs):
         d.kern = KProxy(i)
-    ports = [502 if (transport == 'tcp' or k.endswith('tcp')) else 8899 for k in kinds]
-    invs = [world.FAMILIES[f](HOSTS[i], ports[i], 0x11 if kinds[i].endswith('addr') else 0, 1, 0) for i, f in enumerate(fams)]
+    ports = [502 if (transport == 'tcp' or k.split('+')[0].split('=')[0].endswith('tcp')) else 8899 for k in kinds]
+    invs = [world.FAMILIES[f](HOSTS[i], ports[i], 0x11 if kinds[i].split('+')[0].split('=')[0].endswith('addr') else 0, 1, 0) for i, f in enumerate(fams)]
     for i, k in enumerate(kinds):
         if k.endswith('addr'):
             devs[i].unit = 0x11
+        if '+ka' in k:
+            invs[i].set_keep_alive(True)
     results = [[], []]
+    per_loop = any('+loops' in k for k in kinds)     # every operation step in its own asyncio.run() (the objects live on)
 
     async def runner(i):
         for op in seqs[i]:
@@ -208,8 +211,33 @@ def run_pair(kinds, seqs, ctx, solo=None, transport='udp'):
             d.log.clear()
         tasks = [runner(i) for i in (0, 1) if solo is None or solo == i]
         await asyncio.gather(*tasks)
+
+    async def step(i, op):
+        try:
+            v = await do_op(invs[i], fams[i], op)
+            results[i].append([op, 'ok', snap(v), v])
+        except BaseException as e:  # noqa: BLE001
+            results[i].append([op, 'exc', (type(e).__name__, str(getattr(e, 'message', '') or e)[:60]), None])
     kern.tx_cap = 4000
-    st, res = loop.run(main())
+    if per_loop:
+        st, res = loop.run(setup())
+        for d in devs:
+            d.sent.clear()
+            d.log.clear()
+        for k in range(max(len(s) for s in seqs)):
+            if st == 'hang':
+                break
+            loop.shutdown_like_asyncio_run()
+            loop = KLoop(kern=kern)
+
+            async def both(k=k):
+                # in the new loop object 1 is used first, object 0 after it
+                for i in (1, 0):
+                    if (solo is None or solo == i) and k < len(seqs[i]):
+                        await step(i, seqs[i][k])
+            st, res = loop.run(both())
+    else:
+        st, res = loop.run(main())
     hang = st == 'hang'
     obs = []
     for i in (0, 1):
@@ -281,6 +309,8 @@ def job(j):
 PAIRS = [('ET', 'ET'), ('ET745', 'ET'), ('ETbad', 'ET745'), ('ETnobat', 'ET'), ('ETv1', 'ET'), ('ETrej', 'ET'),
          ('DT', 'DT1'), ('DTrej', 'DT'), ('DT1', 'DT1'), ('ES', 'ESv2'), ('ETfrag', 'ETfrag'), ('ETfrag', 'DT'), ('ET', 'ETtcp'), ('ET', 'ETaddr'), ('ET', 'ESv2'), ('ET', 'DT'), ('ES', 'ES'), ('ETv1', 'ES'), ('ET745', 'ESv2'),
          ('ET=eq', 'DT=eq'), ('DT=eq', 'ET=eq'), ('ET=eq', 'ES=eq'), ('ES=eq', 'DT=eq'), ('ET=eq', 'ET745=eq')]
+# long-lived objects used from successive event loops (keep-alive on / off): two-step sequences, one loop per step
+LOOP_PAIRS = [('ET+ka+loops', 'DT+ka+loops'), ('ET+ka+loops', 'ET+loops'), ('DT+ka+loops', 'ES+ka+loops'), ('ET+ka+loops', 'ETtcp+ka+loops')]
 
 
 def run(tier, seed, rep):
@@ -303,6 +333,10 @@ def run(tier, seed, rep):
     for a in OPS:
         for b in ('read_runtime_data', 'write_scalar', 'set_eco_charge'):
             jobs.append((('ET', 'ET'), ((a,), (b,)), 2, 'tcp'))
+    for kinds in LOOP_PAIRS:
+        for a in ('read_runtime_data', 'read_scalar', 'write_scalar'):
+            for b in ('read_runtime_data', 'read_scalar'):
+                jobs.append((kinds, ((a, b), (b, a)), 0, 'udp'))
     k = seed % len(jobs)
     jobs = jobs[k:] + jobs[:k]
     total = Stats()
